@@ -31,7 +31,7 @@ RULES = [
     (r'decorator|trailing comma|augmented assign|non-keyword arg|bare \*|bytes literal|raw string|try without|starred expression|grammar|parser|parsed', 'C06'),
     (r'sort|extend|dict\(|set augmented|\*=|list iterator|\+= ', 'C17'),
     (r'tuple slice|list slices|tuple concat|range|slice|index|bytes .*contains|repeat|sequence', 'C13'),
-    (r'panick|panic', 'C10'),
+    (r'panick|panic|instead of aborting', 'C10'),
 ]
 
 
